@@ -312,6 +312,26 @@ func (c *compiler) computeStates() {
 			last = &state{index: len(c.states), symbol: inp.Nonterminal, sourceState: i, lr0: true}
 			c.states = append(c.states, last)
 			c.addShift(c.states[i], last)
+		} else if c.isSharedTarget(i, last.index) {
+			// The input nonterminal is also used inside other rules, and states are shared by their
+			// cores: reaching this state does not mean that the whole input has been parsed. Give
+			// the input its own copy of the state to hang the final transition on.
+			clone := *last
+			clone.index = len(c.states)
+			clone.sourceState = i
+			clone.shifts = slices.Clone(last.shifts)
+			c.states = append(c.states, &clone)
+			for k, target := range c.states[i].shifts {
+				if target == last.index {
+					c.states[i].shifts[k] = clone.index
+				}
+			}
+			for m := range c.out.Markers {
+				if slices.Contains(c.out.Markers[m].States, last.index) {
+					c.out.mark(clone.index, m)
+				}
+			}
+			last = &clone
 		}
 
 		finalStates[i] = last.index
@@ -373,6 +393,16 @@ func (c *compiler) checkLR0() {
 			c.s.Errorf(c.grammar.Rules[rule].Origin, "Found an lr0 marker inside a non-LR0 state (%v)", state)
 		}
 	}
+}
+
+// isSharedTarget reports whether some state other than "from" has a transition into "target".
+func (c *compiler) isSharedTarget(from, target int) bool {
+	for _, s := range c.states {
+		if s.index != from && slices.Contains(s.shifts, target) {
+			return true
+		}
+	}
+	return false
 }
 
 func (c *compiler) addShift(from, to *state) {
